@@ -373,6 +373,20 @@
 
 pub use anyhow::Result;
 
+/// Verification hook (off by default): when built with `--cfg bc_envelope_verif`
+/// the global registries use the `shuttle` models of `Once`/`Mutex` so that a
+/// controlled scheduler decides every interleaving. Without the cfg this
+/// module does not exist and the registries use `std::sync` as shipped.
+#[cfg(bc_envelope_verif)]
+#[doc(hidden)]
+pub mod verif_std {
+    pub use ::std::*;
+    pub mod sync {
+        pub use ::std::sync::*;
+        pub use ::shuttle::sync::{Mutex, MutexGuard, Once};
+    }
+}
+
 pub mod base;
 pub use base::elide::{self, ObscureAction};
 pub use base::walk::{self, EdgeType};
